@@ -306,11 +306,34 @@ def gen_race(rng):
     return {"family": "mixed", "cfg": cfg, "threads": [ctl, other], "sweep": True}
 
 
+def gen_join_vs_stop(rng):
+    """
+    An untimed join() in one thread while another stops the pool with a long task still executing. Nothing is enqueued
+    after the stop, so the join ends when the task does (an untimed join on a stopped pool that still holds tasks
+    legitimately waits for the next start(), which is why untimed joins are generated here only).
+    """
+    mx = rng.choice([1, 2])
+    cfg = {"max": mx, "min": rng.randrange(0, mx + 1), "qsize": 0, "timeout": rng.choice([0.5, 2.0])}
+    ctl = [["start"]]
+    for _ in range(rng.randint(1, 2)):
+        ctl.append(["enq", "sleep", rng.choice([1.5, 3.0, 6.0])])
+    ctl.append(["go"])
+    if rng.random() < 0.6:
+        ctl.append(["sleep", rng.choice([0.25, 1.0])])
+    ctl.append(["stop"])
+    helper = [["wait_go"], ["join", None]]
+    if rng.random() < 0.3:
+        helper.insert(1, ["sleep", rng.choice([0.25, 0.5])])
+    return {"family": "mixed", "cfg": cfg, "threads": [ctl, helper]}
+
+
 def gen_program(rng, focus=None, tier="quick"):
     pg = {"C09": 0.15, "C10": 0.4, "C11": 0.1}.get(focus, 0.25)
     k = rng.random()
-    if k > {"C11": 0.993}.get(focus, 0.997):  # lifecycle races are what C11 is about: more of them there
+    if k > {"C11": 0.9955}.get(focus, 0.998):  # lifecycle races are what C11 is about: more of them there
         return gen_race(rng)
+    if k > {"C11": 0.97}.get(focus, 0.99):
+        return gen_join_vs_stop(rng)
     if k < pg:
         return gen_growth(rng, tier)
     if k < pg + 0.2:
@@ -545,6 +568,23 @@ def analyse(program, log, verdict, thread_errors=()):
             if not t["begins"] and state != "never":
                 v.append(Violation("C09", "faithful-result", "result-without-run", "future of %s has an outcome but the task never ran" % tid))
     for op in h.ops.values():
+        if op["name"] == "res" and op["out"] and op["out"].startswith("timeout:"):
+            # a time-out is the faithful report only while the task has not finished: once it had finished before the
+            # call, result() - with any time-out, 0 included - reports the task's own outcome
+            t = h.tasks.get(op["out"].split(":", 1)[1])
+            # "finished": the worker that ran it is back at the queue (or gone) - the body's end alone is too early,
+            # the worker still has to store the outcome in the future
+            fin_at = INF
+            if t is not None and t["ends"] and t["by"]:
+                for j in range(t["ends"][0] + 1, len(log)):
+                    if log[j][1] == t["by"][0] and log[j][2] in ("q.get", "thread.exit"):
+                        fin_at = j
+                        break
+            if t is not None and fin_at < op["call"] and op["ret"] != INF:
+                fin = h.finals.get(op["out"].split(":", 1)[1])
+                if fin is not None and fin[1]:
+                    v.append(Violation("C09", "faithful-result", "timeout-after-completion",
+                                       "result() timed out although the task had finished before the call"))
         if op["name"] == "res" and op["out"] and (op["out"].endswith(":False")):
             v.append(Violation("C09", "faithful-result", "identity", "result() gave %s" % op["out"]))
         if op["name"] == "res" and op["out"] and op["out"].startswith("exc:"):
@@ -708,6 +748,16 @@ def analyse(program, log, verdict, thread_errors=()):
             if sc > last_start and sc < op["ret"]:
                 running = False
         if not running:
+            # whatever else happens to the pool meanwhile (a stop() may discard what has not begun), True is never the
+            # answer while a task that was enqueued before the call and has begun is still executing
+            if op["out"] == "join:True":
+                for tid in sorted(h.tasks):
+                    t = h.tasks[tid]
+                    if t["accepted"] and t["enq_ret"] < op["call"] and t["begins"] and t["begins"][0] < op["ret"] and \
+                            (not t["ends"] or t["ends"][0] > op["ret"]) and any(r < op["call"] for c, r in h.starts):
+                        v.append(Violation("C11", "join-means-finished", "task-taken-unfinished-during-stop",
+                                           "join() returned True while task %s (enqueued before the call, begun) was still executing" % tid))
+                        break
             continue
         if op["out"] == "join:False":
             # False is justified by a task that has not finished within the time-out; giving up before the time-out
